@@ -103,7 +103,7 @@ theorem erase_fresh (j rem : Nat) : (List.range' j (rem + 1)).erase j = List.ran
 
 /-- machine state while the builder is being filled: `outL` written, `rem` slots to go -/
 def bst (selfO : O) (outL : List Nat) (rem calls : Nat) (fg : Bool) (polls : Nat) : St :=
-  ⟨selfO, ⟨outL ++ List.replicate rem 0, 0, 0, outL.length, List.range' outL.length rem⟩, true, calls, fg, polls, false⟩
+  ⟨selfO, ⟨outL ++ List.replicate rem 0, 0, 0, outL.length, List.range' outL.length rem⟩, true, calls, fg, polls, false, {}⟩
 
 theorem fill_loop_body (c : Ctx) (selfO : O) (calls : Nat) (fg : Bool) :
     ∀ (rem : Nat) (s : Script) (outL : List Nat), (∀ j, c.src (s.k + j) = pollOf s j) → outL.length + rem < word →
@@ -212,7 +212,7 @@ theorem exec_newBuilder (c : Ctx) (k : S) (env : List V) (st : St) :
     exec c (.newBuilder k) env st =
       exec c k env { st with out := ⟨List.replicate c.n 0, 0, 0, 0, List.range c.n⟩, hasOut := true, outForgot := false } := by
   first | rfl | (simp only [exec]; rfl)
-theorem exec_pollS (c : Ctx) (k : S) (env : List V) (st : St) :
+theorem exec_pollS (c : Ctx) (hb : c.bad = none) (k : S) (env : List V) (st : St) :
     exec c (.pollS k) env st = match c.src st.polls with
       | .yield x =>
         (.poll st.polls :: .take st.polls x :: .drop x :: (exec c k (env ++ [.bool true]) { st with polls := st.polls + 1 }).1,
@@ -221,7 +221,8 @@ theorem exec_pollS (c : Ctx) (k : S) (env : List V) (st : St) :
         (.poll st.polls :: (exec c k (env ++ [.bool false]) { st with polls := st.polls + 1 }).1,
           (exec c k (env ++ [.bool false]) { st with polls := st.polls + 1 }).2)
       | .panic => ([.poll st.polls, .panic st.polls], .panicked, { st with polls := st.polls + 1 }) := by
-  first | rfl | (simp only [exec]; rfl)
+  simp only [exec, hb, GA.Body.panics, Bool.false_eq_true, if_false]
+  rfl
 theorem exec_forgetO_out (c : Ctx) (k : S) (env : List V) (st : St) :
     exec c (.forgetO .out k) env st = exec c k env { st with outForgot := true } := by
   first | rfl | (simp only [exec]; rfl)
@@ -254,7 +255,7 @@ theorem collect_core (c : Ctx) (hn : c.n < word) (sc : Script)
     (hsrc : ∀ j, c.src (sc.k + j) = pollOf sc j) (hb : c.bad = none) (selfO : O)
     (hrej : hintReject canonFrags c.hint c.n = false) :
     let r := runFn c Gen.Body.intrusiveDrop.body ⟨.ref, coreOf Gen.Body.tryFromIter.body⟩ []
-      ⟨selfO, ⟨[], 0, 0, 0, []⟩, false, 0, false, sc.k, false⟩
+      ⟨selfO, ⟨[], 0, 0, 0, []⟩, false, 0, false, sc.k, false, {}⟩
     (r.1, resOf r.2.1) = ((Own.tryFromIter canonFrags scriptSrc c.n c.hint sc).1,
       some (Own.tryFromIter canonFrags scriptSrc c.n c.hint sc).2) := by
   have hl := fill_loop_body c selfO 0 false c.n sc [] hsrc (by simpa using hn)
@@ -303,7 +304,7 @@ theorem collect_core (c : Ctx) (hn : c.n < word) (sc : Script)
 theorem tryFromIter_body (n : Nat) (hn : n < word) (hint : Nat × Option Nat) (sc : Script) (c : Ctx)
     (hcn : c.n = n) (hch : c.hint = hint) (hsrc : ∀ j, c.src (sc.k + j) = pollOf sc j) (hb : c.bad = none) (selfO : O) :
     let r := runFn c Gen.Body.intrusiveDrop.body Gen.Body.tryFromIter []
-      ⟨selfO, ⟨[], 0, 0, 0, []⟩, false, 0, false, sc.k, false⟩
+      ⟨selfO, ⟨[], 0, 0, 0, []⟩, false, 0, false, sc.k, false, {}⟩
     (r.1, resOf r.2.1) = ((Own.tryFromIter canonFrags scriptSrc n hint sc).1,
       some (Own.tryFromIter canonFrags scriptSrc n hint sc).2) := by
   subst hcn
@@ -319,16 +320,16 @@ theorem tryFromIter_body (n : Nat) (hn : n < word) (hint : Nat × Option Nat) (s
       · have hrej : hintReject canonFrags c.hint c.n = false := by
           simp [hintReject, canonFrags, hh, h1, h2]
         have hc := collect_core c hn sc hsrc hb selfO hrej
-        have e : runFn c Gen.Body.intrusiveDrop.body Gen.Body.tryFromIter [] ⟨selfO, ⟨[], 0, 0, 0, []⟩, false, 0, false, sc.k, false⟩
-            = runFn c Gen.Body.intrusiveDrop.body ⟨.ref, coreOf Gen.Body.tryFromIter.body⟩ [] ⟨selfO, ⟨[], 0, 0, 0, []⟩, false, 0, false, sc.k, false⟩ := by
+        have e : runFn c Gen.Body.intrusiveDrop.body Gen.Body.tryFromIter [] ⟨selfO, ⟨[], 0, 0, 0, []⟩, false, 0, false, sc.k, false, {}⟩
+            = runFn c Gen.Body.intrusiveDrop.body ⟨.ref, coreOf Gen.Body.tryFromIter.body⟩ [] ⟨selfO, ⟨[], 0, 0, 0, []⟩, false, 0, false, sc.k, false, {}⟩ := by
           simp [runFn, Gen.Body.tryFromIter, coreOf, exec_ite, eval, natOf, boolOf, h1, hh, h2]
         rw [e]; exact hc
     | none =>
       have hrej : hintReject canonFrags c.hint c.n = false := by
         simp [hintReject, canonFrags, hh, h1]
       have hc := collect_core c hn sc hsrc hb selfO hrej
-      have e : runFn c Gen.Body.intrusiveDrop.body Gen.Body.tryFromIter [] ⟨selfO, ⟨[], 0, 0, 0, []⟩, false, 0, false, sc.k, false⟩
-          = runFn c Gen.Body.intrusiveDrop.body ⟨.ref, coreOf Gen.Body.tryFromIter.body⟩ [] ⟨selfO, ⟨[], 0, 0, 0, []⟩, false, 0, false, sc.k, false⟩ := by
+      have e : runFn c Gen.Body.intrusiveDrop.body Gen.Body.tryFromIter [] ⟨selfO, ⟨[], 0, 0, 0, []⟩, false, 0, false, sc.k, false, {}⟩
+          = runFn c Gen.Body.intrusiveDrop.body ⟨.ref, coreOf Gen.Body.tryFromIter.body⟩ [] ⟨selfO, ⟨[], 0, 0, 0, []⟩, false, 0, false, sc.k, false, {}⟩ := by
         simp [runFn, Gen.Body.tryFromIter, coreOf, exec_ite, eval, natOf, boolOf, h1, hh]
       rw [e]; exact hc
 
@@ -363,6 +364,12 @@ def failOnErr : S → S
   | .callM a k => .callM a (failOnErr k)
   | .fillMapS l o cl b k => .fillMapS l o cl b (failOnErr k)
   | .pollMapS l o cl k => .pollMapS l o cl (failOnErr k)
+  | .allocS k => .allocS (failOnErr k)
+  | .abortAlloc => .abortAlloc
+  | .guardNew p k => .guardNew p (failOnErr k)
+  | .guardForget k => .guardForget (failOnErr k)
+  | .builderAt p k => .builderAt p (failOnErr k)
+  | .deallocS p k => .deallocS p (failOnErr k)
   | .endOut k => .endOut (failOnErr k)
   | .opaque n => .opaque n
 
@@ -390,6 +397,12 @@ def resultLeaves : S → Bool
   | .callM _ k => resultLeaves k
   | .fillMapS _ _ _ _ k => resultLeaves k
   | .pollMapS _ _ _ k => resultLeaves k
+  | .allocS k => resultLeaves k
+  | .abortAlloc => true
+  | .guardNew _ k => resultLeaves k
+  | .guardForget k => resultLeaves k
+  | .builderAt _ k => resultLeaves k
+  | .deallocS _ k => resultLeaves k
   | .endOut k => resultLeaves k
   | .opaque _ => true
 
@@ -419,14 +432,14 @@ theorem postR_cons (a : Ev) (r : List Ev × R × St) :
 theorem postR_ub (tr : List Ev) (st : St) : postR (tr, .ub, st) = (tr, .ub, st) := rfl
 theorem postR_panicked (tr : List Ev) (st : St) : postR (tr, .panicked, st) = (tr, .panicked, st) := rfl
 
-theorem exec_failOnErr (c : Ctx) : ∀ (s : S) (env : List V) (st : St), resultLeaves s = true →
+theorem exec_failOnErr (c : Ctx) (hb : c.bad = none) : ∀ (s : S) (env : List V) (st : St), resultLeaves s = true →
     exec c (failOnErr s) env st = postR (exec c s env st) := by
   intro s
   induction s with
   | done x =>
     intro env st h
     cases x <;> simp [resultLeaves] at h
-    · simp [failOnErr, exec, eval, postR]
+    · simp [failOnErr, exec, eval, postR, hb, GA.Body.panics]
     · rename_i y
       simp only [failOnErr, exec, eval]
       cases eval c env st y <;> simp [postR]
@@ -522,7 +535,7 @@ theorem exec_failOnErr (c : Ctx) : ∀ (s : S) (env : List V) (st : St), resultL
     | ub => rfl
   | pollS k ih =>
     intro env st h
-    simp only [failOnErr, exec]
+    simp only [failOnErr, exec, hb, GA.Body.panics, Bool.false_eq_true, if_false]
     split
     · rw [ih _ _ h]
       exact (postR_prefix [_, _, _] _).symm
@@ -586,21 +599,46 @@ theorem exec_failOnErr (c : Ctx) : ∀ (s : S) (env : List V) (st : St), resultL
       | panicked => rfl
       | ub => rfl
     · exact ih _ _ h
-  | endOut k ih =>
+  | allocS k ih =>
     intro env st h
     simp only [failOnErr, exec]
+    split <;> exact ih _ _ h
+  | abortAlloc => intro env st _; rfl
+  | guardNew p k ih =>
+    intro env st h
+    simp only [failOnErr, exec]
+    split
+    · exact ih _ _ h
+    · rfl
+  | guardForget k ih => intro env st h; simp only [failOnErr, exec]; exact ih _ _ h
+  | builderAt p k ih =>
+    intro env st h
+    simp only [failOnErr, exec]
+    split
+    · exact ih _ _ h
+    · rfl
+    · rfl
+  | deallocS p k ih =>
+    intro env st h
+    simp only [failOnErr, exec]
+    split
+    · exact ih _ _ h
+    · rfl
+  | endOut k ih =>
+    intro env st h
+    simp only [failOnErr, exec, hb, GA.Body.panics, Bool.false_eq_true, if_false]
     split
     · rw [ih _ _ h]; exact (postR_prefix _ _).symm
     · exact ih _ _ h
   | «opaque» n => intro env st _; rfl
 
-theorem exec_endOut (c : Ctx) (k : S) (env : List V) (st : St) :
+theorem exec_endOut (c : Ctx) (hb : c.bad = none) (k : S) (env : List V) (st : St) :
     exec c (.endOut k) env st =
       if st.hasOut && !st.outForgot then
         (dropEvs st.out 0 st.out.position ++ (exec c k env { st with outForgot := true }).1,
           (exec c k env { st with outForgot := true }).2)
       else exec c k env st := by
-  first | rfl | (simp only [exec]; rfl)
+  simp only [exec, hb, GA.Body.panics, Bool.false_eq_true, if_false]
 
 /-- the inlined `try_from_iter` inside `from_iter` is, statement for statement, the body of
     `try_from_iter` with every `Err` result turned into "drop the callee's locals, then panic" -/
@@ -611,7 +649,7 @@ theorem collect_core_from (c : Ctx) (hn : c.n < word) (sc : Script)
     (hsrc : ∀ j, c.src (sc.k + j) = pollOf sc j) (hb : c.bad = none) (selfO : O)
     (hrej : hintReject canonFrags c.hint c.n = false) :
     let r := runFn c Gen.Body.intrusiveDrop.body ⟨.ref, coreOf Gen.Body.fromIter.body⟩ []
-      ⟨selfO, ⟨[], 0, 0, 0, []⟩, false, 0, false, sc.k, false⟩
+      ⟨selfO, ⟨[], 0, 0, 0, []⟩, false, 0, false, sc.k, false, {}⟩
     (r.1, resOf r.2.1) = ((Own.fromIter canonFrags scriptSrc c.n c.hint sc).1,
       some (Own.fromIter canonFrags scriptSrc c.n c.hint sc).2) := by
   have hl := fill_loop_body c selfO 0 false c.n sc [] hsrc (by simpa using hn)
@@ -660,32 +698,32 @@ theorem collect_core_from (c : Ctx) (hn : c.n < word) (sc : Script)
 theorem fromIter_body (n : Nat) (hn : n < word) (hint : Nat × Option Nat) (sc : Script) (c : Ctx)
     (hcn : c.n = n) (hch : c.hint = hint) (hsrc : ∀ j, c.src (sc.k + j) = pollOf sc j) (hb : c.bad = none) (selfO : O) :
     let r := runFn c Gen.Body.intrusiveDrop.body Gen.Body.fromIter []
-      ⟨selfO, ⟨[], 0, 0, 0, []⟩, false, 0, false, sc.k, false⟩
+      ⟨selfO, ⟨[], 0, 0, 0, []⟩, false, 0, false, sc.k, false, {}⟩
     (r.1, resOf r.2.1) = ((Own.fromIter canonFrags scriptSrc n hint sc).1,
       some (Own.fromIter canonFrags scriptSrc n hint sc).2) := by
   subst hcn
   subst hch
   by_cases h1 : c.n < c.hint.1
-  · simp [runFn, Gen.Body.fromIter, exec_ite, exec_done, exec_endOut, exec_lenFail, eval, natOf, boolOf, h1, Own.fromIter, Own.tryFromIter, hintReject,
+  · simp [runFn, Gen.Body.fromIter, exec_ite, exec_done, exec_endOut, hb, exec_lenFail, eval, natOf, boolOf, h1, Own.fromIter, Own.tryFromIter, hintReject,
       canonFrags, scriptSrc, resOf]
   · cases hh : c.hint.2 with
     | some h =>
       by_cases h2 : h < c.n
-      · simp [runFn, Gen.Body.fromIter, exec_ite, exec_done, exec_endOut, exec_lenFail, eval, natOf, boolOf, h1, hh, h2, Own.fromIter, Own.tryFromIter,
+      · simp [runFn, Gen.Body.fromIter, exec_ite, exec_done, exec_endOut, hb, exec_lenFail, eval, natOf, boolOf, h1, hh, h2, Own.fromIter, Own.tryFromIter,
           hintReject, canonFrags, scriptSrc, resOf]
       · have hrej : hintReject canonFrags c.hint c.n = false := by
           simp [hintReject, canonFrags, hh, h1, h2]
         have hc := collect_core_from c hn sc hsrc hb selfO hrej
-        have e : runFn c Gen.Body.intrusiveDrop.body Gen.Body.fromIter [] ⟨selfO, ⟨[], 0, 0, 0, []⟩, false, 0, false, sc.k, false⟩
-            = runFn c Gen.Body.intrusiveDrop.body ⟨.ref, coreOf Gen.Body.fromIter.body⟩ [] ⟨selfO, ⟨[], 0, 0, 0, []⟩, false, 0, false, sc.k, false⟩ := by
+        have e : runFn c Gen.Body.intrusiveDrop.body Gen.Body.fromIter [] ⟨selfO, ⟨[], 0, 0, 0, []⟩, false, 0, false, sc.k, false, {}⟩
+            = runFn c Gen.Body.intrusiveDrop.body ⟨.ref, coreOf Gen.Body.fromIter.body⟩ [] ⟨selfO, ⟨[], 0, 0, 0, []⟩, false, 0, false, sc.k, false, {}⟩ := by
           simp [runFn, Gen.Body.fromIter, coreOf, exec_ite, eval, natOf, boolOf, h1, hh, h2]
         rw [e]; exact hc
     | none =>
       have hrej : hintReject canonFrags c.hint c.n = false := by
         simp [hintReject, canonFrags, hh, h1]
       have hc := collect_core_from c hn sc hsrc hb selfO hrej
-      have e : runFn c Gen.Body.intrusiveDrop.body Gen.Body.fromIter [] ⟨selfO, ⟨[], 0, 0, 0, []⟩, false, 0, false, sc.k, false⟩
-          = runFn c Gen.Body.intrusiveDrop.body ⟨.ref, coreOf Gen.Body.fromIter.body⟩ [] ⟨selfO, ⟨[], 0, 0, 0, []⟩, false, 0, false, sc.k, false⟩ := by
+      have e : runFn c Gen.Body.intrusiveDrop.body Gen.Body.fromIter [] ⟨selfO, ⟨[], 0, 0, 0, []⟩, false, 0, false, sc.k, false, {}⟩
+          = runFn c Gen.Body.intrusiveDrop.body ⟨.ref, coreOf Gen.Body.fromIter.body⟩ [] ⟨selfO, ⟨[], 0, 0, 0, []⟩, false, 0, false, sc.k, false, {}⟩ := by
         simp [runFn, Gen.Body.fromIter, coreOf, exec_ite, eval, natOf, boolOf, h1, hh]
       rw [e]; exact hc
 
@@ -789,7 +827,7 @@ theorem gen_loop_body (c : Ctx) (selfO : O) (fg : Bool) (pl : Nat) :
     ownership model's `generate` -/
 theorem generate_body (c : Ctx) (hn : c.n < word) (hb : c.bad = none) (selfO : O) :
     let r := runFn c Gen.Body.intrusiveDrop.body Gen.Body.generate []
-      ⟨selfO, ⟨[], 0, 0, 0, []⟩, false, 0, false, 0, false⟩
+      ⟨selfO, ⟨[], 0, 0, 0, []⟩, false, 0, false, 0, false, {}⟩
     (r.1, resOf r.2.1) = ((GA.Ops.generate c.cl c.n).1, some (GA.Ops.generate c.cl c.n).2) := by
   have hl := gen_loop_body c selfO false 0 c.n [] 0 (by simpa using hn)
   simp only [loopBodyOf, Gen.Body.generate, List.length_nil, Nat.zero_add, bst, List.nil_append] at hl
@@ -871,11 +909,11 @@ theorem callsSpec_full (f : Nat → Bool) : ∀ (xs : List Nat) (k : Nat),
 theorem gaFold_loop (c : Ctx) (slots : List Nat) (out : O) (ho fg : Bool) (pl : Nat) (of : Bool) :
     ∀ (r i k : Nat), i + r ≤ slots.length → i + r < word →
       loopOver (loopBody c (loopBodyOf Gen.Body.gaFold.body) []) ((List.range' i r).map (V.slot .self))
-          ⟨⟨slots, 0, 0, i, []⟩, out, ho, k, fg, pl, of⟩
+          ⟨⟨slots, 0, 0, i, []⟩, out, ho, k, fg, pl, of, {}⟩
         = ((callsSpec c.fpan ((slots.drop i).take r) k).1,
            (if (callsSpec c.fpan ((slots.drop i).take r) k).2.1 then R.ret .unit else R.panicked),
            ⟨⟨slots, 0, 0, i + (callsSpec c.fpan ((slots.drop i).take r) k).2.2, []⟩, out, ho,
-             k + (callsSpec c.fpan ((slots.drop i).take r) k).2.2, fg, pl, of⟩) := by
+             k + (callsSpec c.fpan ((slots.drop i).take r) k).2.2, fg, pl, of, {}⟩) := by
   intro r
   induction r with
   | zero => intro i k _ _; simp [loopOver, callsSpec]
@@ -898,7 +936,7 @@ theorem gaFold_loop (c : Ctx) (slots : List Nat) (out : O) (ho fg : Bool) (pl : 
     yet handed out -/
 theorem gaFold_body (xs : List Nat) (hw : xs.length < word) (c : Ctx) (hbad : c.bad = none) (p0 : Nat) :
     let r := runFn c Gen.Body.consumerDrop.body Gen.Body.gaFold []
-      ⟨⟨xs, 0, 0, p0, []⟩, ⟨[], 0, 0, 0, []⟩, false, 0, false, 0, false⟩
+      ⟨⟨xs, 0, 0, p0, []⟩, ⟨[], 0, 0, 0, []⟩, false, 0, false, 0, false, {}⟩
     (r.1, r.2.1) = ((foldSpec c.fpan xs 0).1, if (foldSpec c.fpan xs 0).2 then R.ret .unit else R.panicked) := by
   have hl := gaFold_loop c xs ⟨[], 0, 0, 0, []⟩ false false 0 false xs.length 0 0 (by omega) (by omega)
   simp only [loopBodyOf, Gen.Body.gaFold, List.drop_zero, List.take_length] at hl
@@ -993,7 +1031,7 @@ theorem own_mapLoop_eq (f : Nat → Option Nat) (xs : List Nat) :
 /-- machine state while `map` runs: `j` source elements consumed (= results written, calls made) -/
 def mst (xs outL : List Nat) (rem : Nat) (extra : Nat) (fg : Bool) : St :=
   ⟨⟨xs, 0, 0, outL.length + extra, []⟩, ⟨outL ++ List.replicate rem 0, 0, 0, outL.length, List.range' outL.length rem⟩,
-    true, outL.length + extra, fg, outL.length + extra, false⟩
+    true, outL.length + extra, fg, outL.length + extra, false, {}⟩
 
 theorem exec_fillMapS (c : Ctx) (l0 : Nat) (src : Obj) (clo body k : S) (env : List V) (st : St) :
     exec c (.fillMapS l0 src clo body k) env st =
@@ -1067,7 +1105,7 @@ theorem exec_pollMapS (c : Ctx) (l0 : Nat) (src : Obj) (clo k : S) (env : List V
     interpretation produces exactly the events and the result of the ownership model's `mapOp`. -/
 theorem gaMap_body (xs : List Nat) (hw : xs.length < word) (c : Ctx) (hn : c.n = xs.length) (hb : c.bad = none) (p0 : Nat) :
     let r := runFn2 c Gen.Body.consumerDrop.body Gen.Body.intrusiveDrop.body Gen.Body.gaMap []
-      ⟨⟨xs, 0, 0, p0, []⟩, ⟨[], 0, 0, 0, []⟩, false, 0, false, 0, false⟩
+      ⟨⟨xs, 0, 0, p0, []⟩, ⟨[], 0, 0, 0, []⟩, false, 0, false, 0, false, {}⟩
     (r.1, resOf r.2.1) = ((GA.Ops.mapOp .owned c.cl xs).1, some (GA.Ops.mapOp .owned c.cl xs).2) := by
   have hl := map_loop_body c xs false xs.length [] (by simp) hw
   simp only [cloOf, loopBodyOf, Gen.Body.gaMap, List.length_nil, Nat.zero_add, mst, List.nil_append, List.drop_zero,
